@@ -21,6 +21,7 @@ Definition elem_at (l : gline) (n : nat) (e : elem) : Prop :=
   | ERow loc cells =>
     loc = mk_loc n (Some (l_indent l + 1)) /\ line_startswith l [PIPE] = true
     /\ cells = map (fun it => mk_cell (loc_at n (l_indent l + 1) (fst it)) (snd it)) (table_cells l)
+  | EText _ => True       (* free text carries no location *)
   end.
 
 Lemma first_title_keyword_some l ks k : first_title_keyword l ks = Some k -> In k ks /\ startswith_title_keyword l k = true.
@@ -56,6 +57,7 @@ Theorem matcher_elems_at ds k m t0 l n t m' : tk_line t0 = Some l -> loc_line (t
 Proof.
   intros L <-. unfold matcher. rewrite L.
   destruct k; try (intros _; apply Forall_nil).
+  all: try (intros _; unfold tok_elems; destruct (m_text t); [|constructor]; apply Forall_forall; intros e He; unfold text_elems in He; apply in_map_iff in He as [x [<- _]]; exact I).
   - (* TagLine *)
     destruct (line_startswith l [AT]) eqn:St; [|discriminate]. destruct (line_tags l) as [items|c] eqn:Lt; [|discriminate].
     intros H. inversion H; subst t m'. clear H. unfold tok_elems, set_matched. cbn [m_items].
